@@ -14,7 +14,12 @@ Supported subset (anything else raises Unsupported):
                | final slice assignment `T[a:b] = [v] * k`
   expressions: int / float-integer constants, names, attributes from ATTR, + - * (Z), `int(a / b)` (truncation), `ceil(a / b)`,
                comparisons, and / or / not, truthiness of a list, `x in [..]`, `xs[0]`, `xs[-1]`, tuples,
-               calls of other translated functions and of the monadic model function geti.
+               calls of other translated functions and of the monadic model function geti, `a // b`, string constants.
+Control flow of compute_n_m and pth_assign_spectrum (gen_control_flow): the function bodies are matched against templates
+(CNM_TEMPLATE, PTH_TEMPLATE: every statement must be the expected one, holes H_x stand for what is translated); the
+if/elif/else chain of compute_n_m's loop body becomes g_cnm_step (one arm per None-ness pattern of (N, M); `break` ->
+Break, `return [], [], required_m` -> ReturnBlocked, falling through -> Continue n m) and the decisions of
+pth_assign_spectrum (the per-slot channel count, the two blocking tests and reasons) become g_pth_assign_one.
 """
 import ast
 import os
@@ -68,6 +73,10 @@ class Tr:
 
     # ---------------------------------------------------------------- expressions
     def num(self, v):
+        if isinstance(v, str):
+            if '"' in v or '\\' in v:
+                raise Unsupported(f'string constant {v!r}')
+            return f'"{v}"'
         if isinstance(v, bool):
             return 'true' if v else 'false'
         if isinstance(v, int):
@@ -105,6 +114,9 @@ class Tr:
                         raise Unsupported('list repetition of a non-singleton')
                     return f'(repeat {self.e(n.left.elts[0])} (Z.to_nat {self.e(n.right)}))'
                 return f'({self.e(n.left)} {op} {self.e(n.right)})'
+            if isinstance(n.op, ast.FloorDiv):
+                # Python's // and Coq's Z.div both round towards minus infinity (remainder has the divisor's sign)
+                return f'({self.e(n.left)} / {self.e(n.right)})'
             raise Unsupported(f'operator {type(n.op).__name__} outside int()/ceil()')
         if isinstance(n, ast.Call):
             f = dotted(n.func)
@@ -246,6 +258,246 @@ class Tr:
                 f"else {app(iff.orelse)}) (combine {x} {y})")
 
 
+# ------------------------------------------------------------------ templates with holes (control-flow glue)
+def unify(t, n, binds):
+    """structural equality of two ast nodes; a Name `H_x` in the template matches any expression, an expression
+    statement consisting of such a Name matches any single statement; matched sub-trees are recorded in binds"""
+    if isinstance(t, ast.Name) and t.id.startswith('H_'):
+        binds[t.id] = n
+        return True
+    if isinstance(t, ast.Expr) and isinstance(t.value, ast.Name) and t.value.id.startswith('H_'):
+        binds[t.value.id] = n
+        return True
+    if type(t) is not type(n):
+        return False
+    if isinstance(t, ast.AST):
+        for f in t._fields:
+            if f in ('type_comment', 'kind'):
+                continue
+            if not unify(getattr(t, f, None), getattr(n, f, None), binds):
+                return False
+        return True
+    if isinstance(t, list):
+        return len(t) == len(n) and all(unify(a, b, binds) for a, b in zip(t, n))
+    return t == n
+
+
+def strip_doc(body):
+    if body and isinstance(body[0], ast.Expr) and isinstance(body[0].value, ast.Constant) \
+            and isinstance(body[0].value.value, str):
+        return body[1:]
+    return body
+
+
+def match_template(template_src, stmts, what):
+    tmpl = ast.parse(template_src).body
+    binds = {}
+    if not unify(tmpl, stmts, binds):
+        raise Unsupported(f'{what}: the control flow around the translated expressions no longer has the expected shape')
+    return binds
+
+
+CNM_TEMPLATE = """
+selected_m = []
+selected_n = []
+remaining_slots_to_serve = required_m
+rq_N, rq_M, order = order_slots([{'N': n, 'M': m} for n, m in zip(rq.N, rq.M)])
+test_oms = aggregate_oms_bitmap(path_oms, oms_list)
+for n, m in zip(rq_N, rq_M):
+    H_CHAIN
+    selected_m.append(m)
+    selected_n.append(n)
+    test_oms.assign_spectrum(n, m)
+    remaining_slots_to_serve = remaining_slots_to_serve - m
+not_selected = [None for i in range(len(rq_N) - len(selected_n))]
+selected_m = restore_order(selected_m + not_selected, order)
+selected_n = restore_order(selected_n + not_selected, order)
+return selected_n, selected_m, remaining_slots_to_serve
+"""
+
+PTH_TEMPLATE = """
+for pth, rq, rpth in zip(pths, rqs, rpths):
+    if hasattr(rq, 'blocking_reason'):
+        rq.N = None
+        rq.M = None
+    else:
+        nb_wl, required_m = compute_spectrum_slot_vs_bandwidth(rq.path_bandwidth, rq.spacing, rq.bit_rate)
+        _, per_channel_m = compute_spectrum_slot_vs_bandwidth(rq.bit_rate, rq.spacing, rq.bit_rate)
+        path_oms = build_path_oms_id_list(pth + rpth)
+        if getattr(rq, 'M', None) is not None and all(rq.M):
+            nb_channels_of_request = sum(H_term for m in rq.M)
+            if H_cond1:
+                rq.N = None
+                rq.M = None
+                rq.blocking_reason = H_reason1
+                continue
+        selected_n, selected_m, remaining_slots_to_serve = \\
+            compute_n_m(required_m, rq, path_oms, oms_list, per_channel_m, policy=policy)
+        if H_cond2:
+            rq.N = None
+            rq.M = None
+            rq.blocking_reason = H_reason2
+            continue
+        for oms_elem in path_oms:
+            for this_n, this_m in zip(selected_n, selected_m):
+                if this_m is not None:
+                    oms_list[oms_elem].assign_spectrum(this_n, this_m)
+            oms_list[oms_elem].add_service(rq.request_id, nb_wl)
+        rq.N = selected_n
+        rq.M = selected_m
+"""
+
+
+def none_test(test, env):
+    """value of a condition built from `x is None` / `x is not None` (x a loop variable) under the pattern env
+    (name -> True when bound to a value, False when None); None when the condition is of another kind"""
+    if isinstance(test, ast.BoolOp):
+        vals = [none_test(v, env) for v in test.values]
+        if any(v is None for v in vals):
+            return None
+        return all(vals) if isinstance(test.op, ast.And) else any(vals)
+    if isinstance(test, ast.Compare) and len(test.ops) == 1 and isinstance(test.left, ast.Name) \
+            and test.left.id in env and isinstance(test.comparators[0], ast.Constant) \
+            and test.comparators[0].value is None and isinstance(test.ops[0], (ast.Is, ast.IsNot)):
+        return (not env[test.left.id]) if isinstance(test.ops[0], ast.Is) else env[test.left.id]
+    return None
+
+
+class CnmBody:
+    """the if/elif/else chain at the head of compute_n_m's loop body -> a Gallina term of type res step_res"""
+
+    def __init__(self, tr):
+        self.tr = tr
+
+    def is_blocked_return(self, s):
+        b = {}
+        return unify(ast.parse('return [], [], required_m').body[0], s, b)
+
+    def exit_of(self, stmts):
+        if len(stmts) == 1 and isinstance(stmts[0], ast.Break):
+            return 'Ok Break'
+        if len(stmts) == 1 and self.is_blocked_return(stmts[0]):
+            return 'Ok ReturnBlocked'
+        raise Unsupported('exit other than `break` / `return [], [], required_m` in the loop body of compute_n_m')
+
+    def branch(self, stmts, bound, optvars):
+        """bound: names holding a Z; optvars: names holding an option Z (result of a selection)"""
+        if not stmts:
+            if 'n' in bound and 'm' in bound:
+                return 'Ok (Continue n m)'
+            raise Unsupported('a branch of compute_n_m ends without both n and m defined')
+        s, rest = stmts[0], stmts[1:]
+        tr = self.tr
+        if isinstance(s, ast.Assign) and len(s.targets) == 1:
+            t, v = s.targets[0], s.value
+            if isinstance(v, ast.Call) and dotted(v.func) == 'determine_slot_numbers' and isinstance(t, ast.Name):
+                if len(v.args) != 4 or v.keywords or dotted(v.args[0]) != 'test_oms':
+                    raise Unsupported('call of determine_slot_numbers')
+                args = ' '.join(self.val(a, bound) for a in v.args[1:])
+                return f'let* {t.id} := determine_slot_numbers test {args} in\n    ' \
+                    + self.branch(rest, bound | {t.id}, optvars)
+            if isinstance(v, ast.Call) and dotted(v.func) == 'spectrum_selection':
+                b = {}
+                if not unify(ast.parse('n, _, _ = spectrum_selection(test_oms, H_m, None, policy=policy)').body[0], s, b):
+                    raise Unsupported('call of spectrum_selection')
+                return f'let* n_sel := select_free test {self.val(b["H_m"], bound)} policy in\n    ' \
+                    + self.branch(rest, bound - {'n'}, optvars | {'n'})
+            if isinstance(t, ast.Name):
+                return f'let {t.id} := {self.val(v, bound)} in\n    ' + self.branch(rest, bound | {t.id}, optvars - {t.id})
+            raise Unsupported('assignment in the loop body of compute_n_m')
+        if isinstance(s, ast.If) and not s.orelse:
+            ex = self.exit_of(s.body)
+            nt = none_test(s.test, {v: False for v in optvars})
+            if nt is not None:
+                # `if n is None: <exit>` right after a selection
+                b = {}
+                if not (len(optvars) == 1 and unify(ast.parse('n is None').body[0].value, s.test, b)):
+                    raise Unsupported('None test in the loop body of compute_n_m')
+                return f'match n_sel with None => {ex} | Some n =>\n    ' \
+                    + self.branch(rest, bound | {'n'}, set()) + ' end'
+            for name in [x.id for x in ast.walk(s.test) if isinstance(x, ast.Name)]:
+                if name in optvars or (name in ('n', 'm') and name not in bound):
+                    raise Unsupported(f'{name} used while it may be None')
+            return f'if {tr.b(s.test)} then {ex} else\n    ' + self.branch(rest, bound, optvars)
+        raise Unsupported('statement in the loop body of compute_n_m: ' + ast.dump(s)[:120])
+
+    def val(self, node, bound):
+        for x in ast.walk(node):
+            if isinstance(x, ast.Name) and x.id in ('n', 'm') and x.id not in bound:
+                raise Unsupported(f'{x.id} used while it is None')
+        return self.tr.e(node)
+
+    def chain(self, node):
+        arms = []
+        cur = node
+        while True:
+            if not isinstance(cur, ast.If):
+                raise Unsupported('head of the loop body of compute_n_m is not an if/elif chain')
+            arms.append((cur.test, cur.body))
+            if len(cur.orelse) == 1 and isinstance(cur.orelse[0], ast.If):
+                cur = cur.orelse[0]
+            else:
+                other = cur.orelse
+                break
+        if not other:
+            raise Unsupported('if/elif chain of compute_n_m without else')
+        out = []
+        for n_some, m_some in ((True, True), (False, True), (True, False), (False, False)):
+            env = {'n': n_some, 'm': m_some}
+            body = other
+            for test, b in arms:
+                v = none_test(test, env)
+                if v is None:
+                    raise Unsupported('a test of the if/elif chain of compute_n_m is not about None-ness of n, m')
+                if v:
+                    body = b
+                    break
+            pat = f"({'Some n' if n_some else 'None'}, {'Some m' if m_some else 'None'})"
+            bound = {x for x, k in env.items() if k} | {'required_m', 'remaining_slots_to_serve', 'per_channel_m'}
+            out.append(f'  | {pat} =>\n    ' + self.branch(body, bound, set()))
+        return '\n'.join(out)
+
+
+def gen_control_flow(trees, known, defaults):
+    """g_cnm_step and g_pth_assign_one: the decisions of compute_n_m / pth_assign_spectrum; the bookkeeping around them
+    (lists, ordering, the commit loops) is matched against a template, not translated"""
+    tree = trees['gnpy/topology/spectrum_assignment.py']
+    out = []
+    fn = find(tree, 'compute_n_m')
+    binds = match_template(CNM_TEMPLATE, strip_doc(fn.body), 'compute_n_m')
+    tr = Tr(known, defaults)
+    body = CnmBody(tr).chain(binds['H_CHAIN'])
+    out.append('(* gnpy/topology/spectrum_assignment.py: compute_n_m, decision taken for one (N, M) of the request *)')
+    out.append('Definition g_cnm_step (test : bitmap) (required_m remaining_slots_to_serve per_channel_m : Z) '
+               '(policy : policy) (s : slot_req) : res step_res :=\n  match s with\n' + body + '\n  end.\n')
+    fn = find(tree, 'pth_assign_spectrum')
+    binds = match_template(PTH_TEMPLATE, strip_doc(fn.body), 'pth_assign_spectrum')
+    tr = Tr(known, defaults)
+    term, c1, c2 = tr.e(binds['H_term']), tr.b(binds['H_cond1']), tr.b(binds['H_cond2'])
+    r1, r2 = tr.e(binds['H_reason1']), tr.e(binds['H_reason2'])
+    if tr.pre:
+        raise Unsupported('monadic call in a decision of pth_assign_spectrum')
+    out.append('(* gnpy/topology/spectrum_assignment.py: pth_assign_spectrum, one request *)')
+    out.append(f"""Definition g_pth_assign_one (policy : policy) (st : state) (rq : request) : res (state * outcome) :=
+  if pre_blocked rq then Ok (st, Skipped) else
+  let '(nb_wl, required_m) :=
+    g_compute_spectrum_slot_vs_bandwidth (bandwidth rq) (spacing rq) (bit_rate rq) slot_width in
+  let '(_, per_channel_m) :=
+    g_compute_spectrum_slot_vs_bandwidth (bit_rate rq) (spacing rq) (bit_rate rq) slot_width in
+  if all_m_defined (slots rq) &&
+     (let nb_channels_of_request :=
+        fold_left (fun acc s => match snd s with Some m => acc + {term} | None => acc end) (slots rq) 0 in
+      {c1})
+  then Ok (st, Blocked {r1}) else
+  let* r := compute_n_m st required_m per_channel_m policy (slots rq) (path_oms rq) in
+  let '(selected_n, selected_m, remaining_slots_to_serve) := r in
+  if {c2} then Ok (st, Blocked {r2}) else
+  let* st' := commit st (path_oms rq) selected_n selected_m (rid rq) nb_wl in
+  Ok (st', Accepted selected_n selected_m).
+""")
+    return out
+
+
 def find(tree, qual):
     parts = qual.split('.')
     body = tree.body
@@ -293,6 +545,7 @@ def generate(repo=None):
         out.append(f'(* {path}: {qual} *)')
         out.append(f'Definition g_{name} {binders}{extra} : {rty} :=\n  {body}.\n')
         known.add(name)
+    out += gen_control_flow(trees, known, defaults)
     return '\n'.join(out)
 
 
